@@ -365,3 +365,26 @@ PROPS["C09"] = dict(
                  "push: no contract can state what the remote shell does; bounded fault enumeration stands in (H13 was found and fixed there)",
                  "'running the same command again yields the uninterrupted result' is a two-run statement: crash oracle only"],
 )
+
+
+# ---- C13: hub-sync, the client side of one run ----
+PROPS["C13"] = dict(
+    level="proof",
+    units=[dict(template="units/hub.rs", slice=["*"])],
+    twins=[dict(name="hub_sync_runs", repo_fn="src/bin/copia/hub.rs hub_sync + HubClient", quick=1, thorough=1, needs_cli=True,
+                contract="`copia hub-sync` on the real binary: a local tree lands on a quiet hub (identical bytes, other hub paths untouched, the file the hub already had is skipped, no conflict copy), an immediate second run sends nothing and changes nothing; with client A delayed (strace) between its List and its Put while client B commits the same path, B's content is not overwritten, A's file is kept as a conflict copy and A exits non-zero")],
+    fallback_searches=["hub_sync"],
+    clauses={
+        "hub_sync": "the run's request log (ghost): first the List; afterwards ONLY Puts (then Bye), each for a local file whose listed hash differs from its own, carrying exactly that listed hash as `expected` (None if unlisted), the local fingerprint as content hash and the file root/rel as content; a file whose listed hash equals the local one is not sent; never a Delete; Ok ==> every local file the listing did not already match was Put and the hub answered committed:true; any conflict ==> Err",
+        "consequences (stated, not mechanised)": "with the hub's compare-and-swap (C03: committed only if the live hash equals `expected`) nothing another client committed after this run's List is overwritten, and a non-committed file is kept as a conflict copy; with truthful commits (C03/C10) an immediate second run lists the local hashes and sends nothing",
+    },
+    trusted=COMMON_TRUST + [
+        "HubClient::{connect, list, put, bye} BY CONTRACT (a child process and buffered pipes; std::process is outside the verifier's reach): each sends exactly the request it is named after and `put` streams the named file; an I/O error may cut one request anywhere. Validated by the run twin on the real binary",
+        "meta::discover_local_fingerprints by contract (a function of the local tree); R5 shims to_lossy_string (rel.to_string_lossy().into_owned()) and listed_hash (hub.get(&rel_s).map(|f| f.blake3)); R9/R10 on the loop; R11 Box<dyn Error> => VErr",
+        "BTreeMap<PathBuf,_> key model as in unit plan",
+    ],
+    assumptions=["fewer than 2^64 local files", "the local tree does not change during the run"],
+    not_decided=["sequences of runs by several clients: one run's contract plus the hub-side properties (C03, C10) give the statement by induction on runs - a paper argument; the stale-listing interleaving is exercised once, forced, by the twin",
+                 "HubClient's own methods (process spawning, framing of Put + content) are assumed, not verified; split_target (host:root parsing) is not under contract",
+                 "the `host:root` target over SSH is not exercised (the twin uses a local hub path)"],
+)
